@@ -40,17 +40,35 @@ package redis
 //@   modifies scriptResp, scriptErr, scriptCalls
 
 // Ping: redisUp[s] = whether the store answers a ping at this moment (environment). A ping succeeds only against a store that
-// is up, and does succeed against one when the context it runs under can never be done (trusted: go-redis PING); Ping() is
-// proved to ask under such a context.
+// is up, and does succeed against one when the context it runs under can never be done (go-redis PING trusted in
+// /verif/specs/goredis.spec; a store of an unsupported type is never up); Ping() is proved to ask under such a context.
 //@ ghost var redisUp map[any]bool
 //@ func (s *Redis) PingCtx
+//@   property C03
+//@   ensures implies(result, redisUp[s]) && implies(redisUp[s] && ctxNoDeadline[ctx] && (s.Type == NodeType || s.Type == ClusterType), result)
+//@   modifies pingNode, pingCtx
+// the node a store talks through is the one of its configured type (a cluster store is not reachable through a single-node
+// client built from its seed list); trusted: building a client for a reachable store does not fail, and the node it yields is
+// up exactly when the store is
+//@ func getClient
 //@   trusted
-//@   ensures implies(result, redisUp[s]) && implies(redisUp[s] && ctxNoDeadline[ctx], result)
+//@   results c, err
+//@   ensures implies(r.Type == NodeType && redisUp[r], err == nil) && implies(r.Type == NodeType && err == nil, c != nil && nodeUp[c] == redisUp[r])
+//@   modifies nothing
+//@ func getCluster
+//@   trusted
+//@   results c, err
+//@   ensures implies(r.Type == ClusterType && redisUp[r], err == nil) && implies(r.Type == ClusterType && err == nil, c != nil && nodeUp[c] == redisUp[r])
+//@   modifies nothing
+//@ func getRedis
+//@   property C03
+//@   results c, err
+//@   ensures implies(redisUp[r] && (r.Type == NodeType || r.Type == ClusterType), err == nil) && implies(err == nil, nodeUp[c] == redisUp[r])
 //@   modifies nothing
 //@ func (s *Redis) Ping
 //@   property C03
-//@   ensures result == redisUp[s]
-//@   modifies nothing
+//@   ensures implies(result, redisUp[s]) && implies(redisUp[s] && (s.Type == NodeType || s.Type == ClusterType), result)
+//@   modifies pingNode, pingCtx
 
 //@ func (rl *RedisLock) AcquireCtx
 //@   property C19
@@ -61,6 +79,18 @@ package redis
 //@   ensures implies(ok, err == nil && scriptErr == nil && scriptResp != nil)
 //@   ensures implies(scriptErr != nil && !errors.Is(scriptErr, red.Nil), !ok && err == scriptErr)
 //@   ensures implies(scriptErr == nil || errors.Is(scriptErr, red.Nil), err == nil)
+//@   ensures implies(scriptErr != nil || scriptResp == nil, !ok)
+//@   ensures scriptCalls == old(scriptCalls) + 1
+//@   modifies scriptResp, scriptErr, scriptCalls
+// Acquire is AcquireCtx and nothing else: the lock script runs on every call (a holder that re-acquires refreshes its lease;
+// no read-then-decide shortcut outside the script)
+//@ func (rl *RedisLock) Acquire
+//@   property C19
+//@   results ok, err
+//@   call AcquireCtx#0: assert arg_recv == rl
+//@   ensures scriptCalls == old(scriptCalls) + 1
+//@   ensures implies(ok, err == nil && scriptErr == nil && scriptResp != nil)
+//@   ensures implies(scriptErr != nil && !errors.Is(scriptErr, red.Nil), !ok && err == scriptErr)
 //@   ensures implies(scriptErr != nil || scriptResp == nil, !ok)
 //@   modifies scriptResp, scriptErr, scriptCalls
 
@@ -79,6 +109,17 @@ package redis
 //@   call ScriptRunCtx#0: assert len(raw3) == 1 && raw3[0] == rl.id
 //@   ensures implies(scriptErr != nil, !ok && err == scriptErr)
 //@   ensures implies(scriptErr == nil, err == nil)
+//@   ensures implies(ok, scriptErr == nil && int64(scriptResp.(int64)) == 1)
+//@   ensures scriptCalls == old(scriptCalls) + 1
+//@   modifies scriptResp, scriptErr, scriptCalls
+// Release is ReleaseCtx and nothing else: the key is touched by the release script only (which compares the owner); no other
+// command - in particular no unconditional DEL - is issued, on any outcome
+//@ func (rl *RedisLock) Release
+//@   property C19
+//@   results ok, err
+//@   call ReleaseCtx#0: assert arg_recv == rl
+//@   ensures scriptCalls == old(scriptCalls) + 1 && rdsDels == old(rdsDels)
+//@   ensures implies(scriptErr != nil, !ok && err == scriptErr)
 //@   ensures implies(ok, scriptErr == nil && int64(scriptResp.(int64)) == 1)
 //@   modifies scriptResp, scriptErr, scriptCalls
 
